@@ -349,20 +349,29 @@ class LFRicStencils(LFRicCollection):
 
         if self._unique_extent_vars:
             if self._kernel:
-                for arg in self._kern_args:
+                # Each stencil size is declared according to the type of
+                # the stencil of its own argument: an array holding the
+                # size of each of the four branches for CROSS2D, a scalar
+                # otherwise.
+                sizes_2d = []
+                sizes = []
+                for arg in self._unique_extent_args:
+                    size_name = self.dofmap_size_symbol(self._symbol_table,
+                                                        arg).name
                     if arg.descriptor.stencil['type'] == "cross2d":
-                        parent.add(DeclGen(
-                            parent, datatype="integer",
-                            kind=api_config.default_kind["integer"],
-                            dimension="4",
-                            entity_decls=self._unique_extent_vars, intent="in"
-                        ))
+                        sizes_2d.append(size_name)
                     else:
-                        parent.add(DeclGen(
-                            parent, datatype="integer",
-                            kind=api_config.default_kind["integer"],
-                            entity_decls=self._unique_extent_vars,
-                            intent="in"))
+                        sizes.append(size_name)
+                if sizes_2d:
+                    parent.add(DeclGen(
+                        parent, datatype="integer",
+                        kind=api_config.default_kind["integer"],
+                        dimension="4", entity_decls=sizes_2d, intent="in"))
+                if sizes:
+                    parent.add(DeclGen(
+                        parent, datatype="integer",
+                        kind=api_config.default_kind["integer"],
+                        entity_decls=sizes, intent="in"))
             elif self._invoke:
                 parent.add(DeclGen(
                     parent, datatype="integer",
